@@ -277,6 +277,12 @@ def change_step(ctx):
             E_.pc.append(z3.And(v >= 0, v <= U64))
             return VEnum("Result", "Ok", [VM.bn(v)])
         return f
+    a_coef = E.sym_int("fee_coefficient", "u64")
+    E.assume(a_coef.t <= (1 << 20))
+    def ah(c):
+        """a * (length of the CBOR head of c)"""
+        a = a_coef.t
+        return z3.If(c < 24, a, z3.If(c < 256, 2 * a, z3.If(c < 65536, 3 * a, z3.If(c < (1 << 32), 5 * a, 9 * a))))
     # fee alignment contracts (established from MIR by c05_e2_fee_alignment_contracts below):
     #   TransactionBuilder::min_fee   : Exactly(x) => x ; NotLess(n) => some fee >= n ; Unspecified => any fee
     #   TransactionBuilder::fee_for_output : Exactly(_) => 0 ; otherwise any increase >= 0
@@ -295,6 +301,18 @@ def change_step(ctx):
             fr = fee_request_of(E_, args[0])
             v = E_.fresh(tag)
             E_.pc.append(z3.And(v >= 0, v <= U64))
+            # size meaning (used by the sufficiency obligation, fee request Unspecified): a linear fee  a * size + b
+            r = E_.fresh(tag + "_rest")
+            E_.pc.append(r >= 0)
+            if tag == "min_fee":
+                E_.trace.append(("raw0", r))                       # r = a * (size without the fee field) + b; the fee field is assumed 9 bytes wide
+                if fr.variant == "Unspecified":
+                    E_.pc.append(v == r + 9 * a_coef.t)
+            else:
+                oc, _ = VM.value_parts(E_, VM.deref(E_, args[1]).fields[P.struct_fields["TransactionOutput"].index("amount")])
+                E_.trace.append(("ffo", r, oc))                    # r = a * (size of the output without its coin [+ array header growth])
+                if fr.variant == "Unspecified":
+                    E_.pc.append(v == r + ah(oc))
             if fr.variant == "Exactly":
                 E_.pc.append(v == exactly(E_, fr))
             elif fr.variant == "NotLess" and tag == "min_fee":
@@ -335,6 +353,7 @@ def change_step(ctx):
             return VEnum("Result", "Err", [VOpaque("err:add_output")])
         outs = VM.deref(E_, tb.fields[TB.index("outputs")])
         VM.deref(E_, outs.fields[0]).items.append(clone(VM.deref(E_, args[1])))
+        E_.trace.append(("add",))
         return VEnum("Result", "Ok", [UNIT])
     E.extra_intrinsics[r"TransactionBuilder::add_output$"] = add_output
     ppc, dnb = z3.Bool("prefer_pure_change"), z3.Bool("do_not_burn_extra_change")
@@ -355,6 +374,11 @@ def change_step(ctx):
                     "with any coin; raw size fees, min-ADA values, packed bundles (0..2 per round, <= 3 rounds), output admission: arbitrary; prefer_pure_change / do_not_burn_extra_change: both",
                     ["TransactionBuilder::add_change_if_needed_with_optional_script_and_datum", "burn_extra", "has_assets", "TransactionBuilder::set_final_fee", "get_input_shortage", "<Value as PartialOrd>::partial_cmp", "Value::checked_add / checked_sub (summaries)"],
                     fallback_native="e2n_c05_change_step")
+    ob2 = Obligation(ctx, "c06_e2_change_step_honours_fee_request", "as c05_e2_change_step_balances", ["TransactionBuilder::add_change_if_needed_with_optional_script_and_datum", "TransactionBuilder::set_final_fee", "burn_extra"],
+                     fallback_native="e2n_c05_change_step")
+    ob3 = Obligation(ctx, "c06_e2_change_step_fee_covers_final_sizes", "as c05_e2_change_step_balances, fee request Unspecified; linear fee a * size + b with a: 0..2^20, b arbitrary; every coin width; "
+                     "size of an output = (part independent of the coin) + CBOR head of the coin", ["TransactionBuilder::add_change_if_needed_with_optional_script_and_datum", "burn_extra", "TransactionBuilder::set_final_fee"],
+                     fallback_native="e2n_c06_change_fee_widths")
     seen, panics = {}, {}
     for o in E.explore("TransactionBuilder::add_change_if_needed_with_optional_script_and_datum", mk, max_paths=MAXP):
         if o.kind == "bound":
@@ -387,10 +411,34 @@ def change_step(ctx):
         seen[key] = seen.get(key, 0) + 1
         ob.vc("Ok with %d change outputs => lovelace: inputs == outputs + change + fee" % len(added), o.pc, tin.coin == tout.coin + coin_sum + f, info=dict(n=len(added)))
         ob.vc("Ok with %d change outputs => arbitrary asset: inputs == outputs + change" % len(added), o.pc, tin.q == tout.q + q_sum, info=dict(n=len(added)))
+        # sufficiency in sizes: the fee stored covers the transaction as it finally is — every change output with the coin it
+        # ends up holding, the fee field with the width of the fee actually stored, a pre-existing output that received leftovers
+        if E.concretize(frk) == 0:
+            raw0 = [t[1] for t in o.trace if t[0] == "raw0"]
+            pairs, pending = [], None
+            for t in o.trace:
+                if t[0] == "ffo":
+                    pending = t
+                elif t[0] == "add":
+                    pairs.append(pending); pending = None
+            outs_now = VM.deref(E, VM.deref(E, tb.fields[TB.index("outputs")]).fields[0]).items
+            amt = P.struct_fields["TransactionOutput"].index("amount")
+            finals = [VM.value_parts(E, VM.deref(E, x).fields[amt])[0] for x in outs_now]
+            if len(raw0) != 1 or len(pairs) != len(finals) - 1:
+                ob3.fail("bookkeeping of the size model lost track (%d raw fees, %d adds, %d outputs)" % (len(raw0), len(pairs), len(finals)))
+            elif any(p_ is None for p_ in pairs):
+                ob3.violation("Ok with %d change outputs: an output is added for which no fee was computed" % len(added))
+            else:
+                need = raw0[0] + ah(f) + (ah(finals[0]) - ah(prev.coin)) + z3.Sum([p_[1] + ah(c_) for p_, c_ in zip(pairs, finals[1:])] + [z3.IntVal(0)])
+                ob3.vc("Ok with %d change outputs => stored fee >= a * (final size) + b" % len(added), o.pc, f >= need, info=dict(n=len(added)))
+        ob2.vc("Ok with %d change outputs => a requested minimum fee is a lower bound of the stored fee, a fixed fee is stored exactly" % len(added), o.pc,
+               z3.And(z3.Implies(frk == 1, f >= frc.t), z3.Implies(frk == 2, f == frc.t)), info=dict(n=len(added)))
     ctx.log("  [E2] change step: Ok outcomes by (outputs added, flag): %s; panicking paths (outside C05): %s" % (seen, panics))
     if not any(k[0] == 0 for k in seen) or not any(k[0] == 1 for k in seen) or not any(k[0] >= 2 for k in seen):
         ob.fail("expected Ok outcomes with 0, 1 and >= 2 added outputs, saw %s" % sorted(seen))
     ob.finish(E)
+    ob2.finish(Engine(P))
+    ob3.finish(Engine(P))
 
 
 def fee_alignment_contracts(ctx):
